@@ -1039,3 +1039,210 @@ Proof.
       exact (G _ _ _ Hg Hc). }
   eapply NSI_of_x. apply X; [apply incl_refl|exact H].
 Qed.
+
+Lemma NSIx_drpk : forall P Z s s', active (hs s') = active (hs s) -> nmap (hs s') = nmap (hs s) ->
+  d_pk (dr s') = d_pk (dr s) -> NSIx P Z s -> NSIx P Z s'.
+Proof.
+  intros P Z s s' E1 E2 E3. unfold NSIx, U0, Full, Sync, FreshD, dsec. rewrite E1, E2, E3. auto.
+Qed.
+
+Lemma GroupOK_init : forall d s, (forall n, kM n (nmap (hs s)) <= 1) -> GroupOK (group_of d (nmap (hs s))) s.
+Proof.
+  intros d s U n na na' Hg Hc. apply group_of_in in Hg.
+  destruct (naddr_eqb na' na) eqn:E; [apply naddr_eqb_spec; exact E|]. apply naddr_eqb_neq in E.
+  pose proof (cM_two n na' na (nmap (hs s)) E). specialize (U n). lia.
+Qed.
+
+Lemma fire_due_nsi : forall Z c now fuel s, NSI Z s -> NSI Z (fire_due c s now fuel).
+Proof.
+  intros Z c now. induction fuel as [|f IH]; intros s H; cbn [fire_due]; [exact H|].
+  assert (FR : forall d, NSI Z (match group_of d (nmap (hs s)) with
+      | _ :: _ :: _ =>
+        let (rev_order, d') := pop_rev (dr s) in
+        fire_group c {| hs := hs s; dr := d'; outs := outs s |}
+          (if rev_order then rev (group_of d (nmap (hs s))) else group_of d (nmap (hs s))) d (fire_time c d now)
+      | _ => fire_group c s (group_of d (nmap (hs s))) d (fire_time c d now)
+      end)).
+  { intros d.
+    assert (G0 : NSIx (GroupOK (group_of d (nmap (hs s))) s) Z s).
+    { destruct H as [H|[F _]]; [left; exact H|right]. split; [exact F|]. apply GroupOK_init. apply F. }
+    destruct (group_of d (nmap (hs s))) as [|x [|y g]] eqn:EG; try (apply fire_group_nsi; exact G0).
+    assert (X : d_pk (snd (pop_rev (dr s))) = d_pk (dr s)).
+    { unfold pop_rev. destruct (d_rev (dr s)); reflexivity. }
+    destruct (pop_rev (dr s)) as [ro d']. cbn [snd] in X. apply fire_group_nsi.
+    assert (G1 : NSIx (GroupOK (x :: y :: g) s) Z {| hs := hs s; dr := d'; outs := outs s |}).
+    { eapply NSIx_drpk; [| | |exact G0]; auto. }
+    destruct G1 as [G1|[G1 G2]]; [left; exact G1|right]. split; [exact G1|].
+    destruct ro; [|exact G2]. intros n na na' Hg. apply in_rev in Hg. apply G2. exact Hg. }
+  assert (FC : forall cna cd, NSI Z (fire_challenge c s cna (fire_time c cd now))).
+  { intros. apply fire_challenge_nsi. exact H. }
+  destruct (min_deadline_nmap (nmap (hs s)) None) as [[[rn ra] rd]|];
+  destruct (min_deadline_ch (challenges (hs s)) None) as [[[cna cc] cd]|].
+  - destruct (N.ltb rd now && (negb (N.ltb cd now) || N.leb rd cd)); [apply IH; apply FR|].
+    destruct (N.ltb cd now); [apply IH; apply FC|exact H].
+  - destruct (N.ltb rd now); [apply IH; apply FR|exact H].
+  - destruct (N.ltb cd now); [apply IH; apply FC|exact H].
+  - exact H.
+Qed.
+
+Lemma step_event_nsi : forall Z c s0 e now, NSI Z s0 -> NSI Z (step_event c s0 e now).
+Proof.
+  intros Z c s0 e now H. destruct e as [ct rid body|na rid rb|na n known|from p|]; cbn [step_event].
+  - pose proof (send_request_nsi Z c s0 ct true rid body now H) as X.
+    destruct (send_request c s0 ct true rid body now) as [s1 ok]. cbn [fst] in X. destruct ok; [|apply NSIx_emit]; exact X.
+  - apply send_response_nsi. exact H.
+  - apply send_challenge_nsi. exact H.
+  - destruct p.
+    + apply handle_message_nsi. exact H.
+    + apply handle_challenge_nsi. exact H.
+    + apply handle_auth_message_nsi. exact H.
+  - exact H.
+Qed.
+
+(* ------------------------------------------------------------------------------------------ *)
+(* the step and runs *)
+
+(* the state of the step monad at the end of a step (it still holds the unused draws) *)
+Definition step_st (c : config) (h : hstate) (e : event) (now : N) (d : draws) : st :=
+  step_event c (fire_due c {| hs := h; dr := d; outs := [] |} now TICK_FUEL) e now.
+
+Lemma step_st_hs : forall c h e now d, fst (step c h e now d) = hs (step_st c h e now d).
+Proof. intros. rewrite step_unfold. reflexivity. Qed.
+
+(* FRESHNESS hypothesis on the oracle: the second components of the nonces still to be drawn are
+   pairwise distinct and differ from those of all nonces in the nonce map ... *)
+Definition fresh_draws (h : hstate) (d : draws) : Prop :=
+  NoDup (dsec d) /\ forall x, In x (dsec d) -> ~ In x (nsec (nmap h)).
+(* ... and the list handed to the step was not exhausted (pop_pk on an exhausted list returns
+   zeros): it holds at least one quadruple more than the step consumed *)
+Definition not_exhausted (c : config) (h : hstate) (e : event) (now : N) (d : draws) : Prop :=
+  d_pk (dr (step_st c h e now d)) <> [].
+
+Theorem step_sync : forall c h e now d,
+  Sync h -> fresh_draws h d -> not_exhausted c h e now d -> Sync (fst (step c h e now d)).
+Proof.
+  intros c h e now d S [F1 F2] NE. rewrite step_st_hs. unfold not_exhausted in NE.
+  assert (H0 : NSI [] {| hs := h; dr := d; outs := [] |}).
+  { right. split; [|exact I]. split; [exact S|]. split; [exact F1|]. cbn [hs dr]. intros x Hx. split; [intros []|auto]. }
+  pose proof (step_event_nsi [] c _ e now (fire_due_nsi [] c now TICK_FUEL _ H0)) as X.
+  fold (step_st c h e now d) in X. destruct X as [X|[[X _] _]]; [contradiction|exact X].
+Qed.
+
+Fixpoint fresh_run (c : config) (h : hstate) (evs : list (event * N * draws)) : Prop :=
+  match evs with
+  | [] => True
+  | (e, now, d) :: rest =>
+    fresh_draws h d /\ not_exhausted c h e now d /\ fresh_run c (fst (step c h e now d)) rest
+  end.
+
+Lemma run_sync : forall c evs h, Sync h -> fresh_run c h evs -> Sync (fst (run c h evs)).
+Proof.
+  intros c. induction evs as [|[[e now] d] rest IH]; intros h S F; [exact S|].
+  cbn [fresh_run] in F. destruct F as (F1 & F2 & F3).
+  pose proof (step_sync c h e now d S F1 F2) as X. cbn [run].
+  destruct (step c h e now d) as [h1 o]. cbn [fst] in *. specialize (IH h1 X F3).
+  destruct (run c h1 rest) as [h2 os]. exact IH.
+Qed.
+
+Lemma Sync_init : Sync init_state.
+Proof. split; [constructor|split; [reflexivity|intros n; cbn; lia]]. Qed.
+
+(* ------------------------------------------------------------------------------------------ *)
+(* the invariant in terms of the entries of the two maps *)
+
+Lemma alist_in_get : forall {A} (l : list (naddr * A)) k v, NoDup (map fst l) -> In (k, v) l -> alist_get k l = Some v.
+Proof.
+  intros A. induction l as [|[k0 v0] t IH]; intros k v ND H; [destruct H|]. cbn [alist_get].
+  cbn [map fst] in ND. inversion ND; subst. destruct H as [H|H].
+  - inversion H; subst. rewrite naddr_eqb_refl. reflexivity.
+  - destruct (naddr_eqb k k0) eqn:E.
+    + apply naddr_eqb_spec in E. subst k0. exfalso. apply H2. apply (in_map fst) in H. exact H.
+    + apply IH; assumption.
+Qed.
+
+Lemma cM_in : forall n na d nm, In (n, na, d) nm -> 1 <= cM n na nm.
+Proof.
+  induction nm as [|[[n1 na1] d1] t IH]; intros H; [destruct H|]. cbn [cM]. destruct H as [H|H].
+  - inversion H; subst. rewrite nonce_eqb_refl, naddr_eqb_refl. cbn. lia.
+  - specialize (IH H). lia.
+Qed.
+
+Lemma cntn_in : forall n l r, In r l -> rc_nonce r = n -> 1 <= cntn n l.
+Proof.
+  induction l as [|a t IH]; intros r H E; [destruct H|]. cbn [cntn]. destruct H as [H|H].
+  - subst a. rewrite E, nonce_eqb_refl. cbn. lia.
+  - specialize (IH r H E). lia.
+Qed.
+
+Lemma cntn_nodup : forall l, (forall n, cntn n l <= 1) -> NoDup (map rc_nonce l).
+Proof.
+  induction l as [|a t IH]; intros H; cbn [map]; constructor.
+  - intros Hin. apply in_map_iff in Hin. destruct Hin as (r & E & Hr).
+    pose proof (cntn_in (rc_nonce a) t r Hr E). specialize (H (rc_nonce a)). cbn [cntn] in H.
+    rewrite nonce_eqb_refl in H. cbn [bn] in H. lia.
+  - apply IH. intros n. specialize (H n). cbn [cntn] in H. lia.
+Qed.
+
+(* NonceSync: the readable form *)
+Definition NonceSync (h : hstate) : Prop :=
+  (* every entry of the nonce map has its request *)
+  (forall n na d, In (n, na, d) (nmap h) ->
+     exists l r, alist_get na (active h) = Some l /\ In r l /\ rc_nonce r = n) /\
+  (* every stored request's nonce maps to the address it is stored under *)
+  (forall na l r, In (na, l) (active h) -> In r l -> nmap_get (rc_nonce r) (nmap h) = Some na) /\
+  (* nonces of stored requests are pairwise distinct: within a list, and (by the line above)
+     requests under different addresses have different nonces *)
+  (forall na l, In (na, l) (active h) -> NoDup (map rc_nonce l)) /\
+  NoDup (map fst (active h)).
+
+Theorem Sync_NonceSync : forall h, Sync h -> NonceSync h.
+Proof.
+  intros h (K & S & U). split; [|split; [|split; [|exact K]]].
+  - intros n na d Hin. pose proof (cM_in _ _ _ _ Hin) as C.
+    pose proof (cM_uniq_get _ _ _ (U n) C) as G.
+    destruct (Sync_stored h n na (conj K (conj S U)) G) as (l & r & l' & G1 & R & Hn).
+    exists l, r. split; [exact G1|]. split; [|exact Hn]. apply remove_first_spec in R. tauto.
+  - intros na l r Hin Hr. pose proof (alist_in_get _ _ _ K Hin) as G.
+    apply cM_uniq_get; [apply U|]. rewrite <- S. unfold cA. rewrite G. eapply cntn_in; eauto.
+  - intros na l Hin. pose proof (alist_in_get _ _ _ K Hin) as G. apply cntn_nodup. intros n.
+    specialize (S n na). unfold cA in S. rewrite G in S. pose proof (cM_le_kM n na (nmap h)). specialize (U n). lia.
+Qed.
+
+Theorem maps_in_sync : forall c evs, fresh_run c init_state evs -> NonceSync (fst (run c init_state evs)).
+Proof. intros c evs F. apply Sync_NonceSync. apply run_sync; [exact Sync_init|exact F]. Qed.
+
+(* ------------------------------------------------------------------------------------------ *)
+(* the freshness hypothesis is satisfiable: a run with a handshake, a re-keyed request, a two-packet
+   NODES answer and a timeout, two quadruples per step *)
+Local Open Scope N_scope.
+Definition ex_draws2 (x : N) : draws :=
+  {| d_pk := [(x, x + 1, x + 2, x + 3); (x + 4, x + 5, x + 6, x + 7)]; d_rid := []; d_rev := [] |}.
+Definition ex_sync_events : list (event * N * draws) :=
+  [ (EvRequest ex_peer 100 7, 0, ex_draws2 50);
+    (EvInbound 20 (PWho (50, 51) 1 0 9), 10, ex_draws2 60);
+    (EvRequest ex_peer 101 8, 40, ex_draws2 90);
+    (EvWhoAreYou (3, 30) (5, 5) None, 50, ex_draws2 100);
+    (EvTick, 5000, ex_draws2 110) ].
+
+Example ex_sync_fresh : fresh_run (ex_cfg true) init_state ex_sync_events.
+Proof.
+  vm_compute.
+  repeat match goal with
+  | |- _ /\ _ => split
+  | |- NoDup _ => constructor
+  | |- ~ _ => intro
+  | |- forall _, _ => intro
+  | H : _ \/ _ |- _ => destruct H
+  | H : False |- _ => destruct H
+  | H : In _ (_ :: _) |- _ => cbn [In] in H
+  | H : In _ [] |- _ => destruct H
+  | H : _ :: _ = [] |- _ => discriminate H
+  | |- True => exact I
+  end; try discriminate; subst; try discriminate.
+Qed.
+
+Example ex_sync_state :
+  let h := fst (run (ex_cfg true) init_state ex_sync_events) in
+  map (fun e => fst (fst e)) (nmap h) = [(60, 61); (1, 91)] /\
+  map (fun e => map rc_nonce (snd e)) (active h) = [[(60, 61); (1, 91)]].
+Proof. vm_compute. split; reflexivity. Qed.
